@@ -553,7 +553,7 @@ def rule_tab_special(P):
     # pass 2 emits EVERY expansion of every non-nullary rule (no filter on the composed rule itself)
     for n in walk_live(f2.node):
         if isinstance(n, ast.Call) and W.call_name(n) == "add" and len(n.args) >= 3 and any(isinstance(a, ast.Starred) for a in n.args) \
-                and isinstance(n.args[1], ast.Tuple) and len(n.args[1].elts) == 3:
+                and isinstance(W.canon_ast(f2.node, n.args[1], n), ast.Tuple) and len(W.canon_ast(f2.node, n.args[1], n).elts) == 3:
             lp = next((a for a in ancestors(n) if isinstance(a, ast.For) and "join" in norm(a.iter)), None)
             if lp is None:
                 continue
